@@ -24,7 +24,7 @@ type decProp struct {
 func (d *decProp) Plan(tier string, seed int64) []core.Segment { return d.kinds(tier) }
 
 // CaseCPU bounds the CPU time of one decoder history (they take microseconds).
-func (d *decProp) CaseCPU(tier string) int { return 4 }
+func (d *decProp) CaseCPU(tier string) int { return 120 }
 
 func (d *decProp) Gen(kind string, idx int64, seed int64, tier string) core.Case {
 	s := seed
@@ -102,6 +102,32 @@ func geometry(r *rand.Rand, idx int64) (w, b int) {
 	return 1, 2
 }
 
+// bigGeometry returns buffer geometries beyond the small range: tight ones
+// with power-of-two capacities, default-like 2:1 ones and very large ones.
+func bigGeometry(r *rand.Rand, idx int64) (w, b int) {
+	g := [][2]int{{8190, 8192}, {65528, 65536}, {4096, 8192}, {65536, 131072}, {16384, 131072},
+		{100, 70000}, {4095, 4096}, {32768, 65536}, {1000, 40000}, {1 << 20, 4 << 20}, {65536, 8 << 20}, {0, 0}}
+	k := int(idx % int64(len(g)+2))
+	if k >= len(g) {
+		w = 1000 + r.Intn(100000)
+		b = w + 1 + r.Intn(2*w)
+		return
+	}
+	return g[k][0], g[k][1]
+}
+
+// effGeometry completes a decoder configuration with the documented defaults
+// (the generator needs sizes to aim at).
+func effGeometry(w, b int) (int, int) {
+	if w == 0 {
+		w = 8 << 20
+	}
+	if b == 0 {
+		b = 2 * w
+	}
+	return w, b
+}
+
 func clampSeqs(ops []DOp, max int) {
 	if max < 1 {
 		max = 1
@@ -171,10 +197,14 @@ func init() {
 		owned: owned("read-bytes", "append-wrong", "window-lost", "struct-invariant", "valid-offset-rejected", "unexpected-error", "flush-incomplete", "writer-prefix", "panic", "oversized-accepted"),
 		kinds: func(tier string) []core.Segment {
 			m := tierScale(tier, 60)
-			return []core.Segment{{Kind: "corpus:buffer", N: 1640}, {Kind: "buffer", N: 12000 * m}, {Kind: "corpus:decoder", N: 820}, {Kind: "decoder", N: 8000 * m}}
+			return []core.Segment{{Kind: "corpus:buffer", N: 1640}, {Kind: "buffer", N: 12000 * m}, {Kind: "corpus:decoder", N: 820}, {Kind: "decoder", N: 8000 * m},
+				{Kind: "big:buffer", N: 42 * m, Chunk: 3}, {Kind: "big:decoder", N: 42 * m, Chunk: 3}}
 		},
 		genC: func(r *rand.Rand, kind string, idx int64, tier string) DCase {
-			_, sut := splitKind(kind)
+			class, sut := splitKind(kind)
+			if class == "big" {
+				return bigDCase(r, sut, idx, 0)
+			}
 			w, b := geometry(r, idx)
 			g := &DGen{SUT: sut, W: w, B: b, N: 40 + r.Intn(40), MaxItem: 2 + r.Intn(2*b), BigItems: r.Intn(3) == 0}
 			ops := GenDOps(r, g)
@@ -221,15 +251,19 @@ func init() {
 			rule:        "decoder histories weighted towards a full buffer with already-read bytes so that a WriteBlock/Write/WriteMatch call both discards old data and appends; the reported n, k, l and DecoderBuffer.Off are compared with the model after every step, also for calls that stop early with an error after partial progress; non-trivial iff a block call discarded and appended or stopped early after progress; distinct = distinct concrete case",
 			assumptions: []string{"the model appends what the reported (k,l) denote; n and Off are compared with it"},
 			mandatory:   []string{"block_calls_that_discarded_and_appended", "block_stopped_early_after_progress", "valid_blocks_with_sequences", "steps_with_shrink"}},
-		owned: owned("count-n", "count-k-l", "off"),
+		owned: owned("count-n", "count-k-l", "off", "oversized-accepted"),
 		kinds: func(tier string) []core.Segment {
 			m := tierScale(tier, 60)
-			return []core.Segment{{Kind: "corpus:buffer", N: 1640}, {Kind: "buffer", N: 14000 * m}, {Kind: "corpus:decoder", N: 820}, {Kind: "decoder", N: 6000 * m}}
+			return []core.Segment{{Kind: "corpus:buffer", N: 1640}, {Kind: "buffer", N: 14000 * m}, {Kind: "corpus:decoder", N: 820}, {Kind: "decoder", N: 6000 * m},
+				{Kind: "big:buffer", N: 42 * m, Chunk: 3}, {Kind: "big:decoder", N: 28 * m, Chunk: 3}}
 		},
 		genC: func(r *rand.Rand, kind string, idx int64, tier string) DCase {
-			_, sut := splitKind(kind)
+			class, sut := splitKind(kind)
+			if class == "big" {
+				return bigDCase(r, sut, idx, 0)
+			}
 			w, b := geometry(r, idx)
-			g := &DGen{SUT: sut, W: w, B: b, N: 30 + r.Intn(40), MaxItem: 2 + r.Intn(b), NoReset: r.Intn(3) > 0, BigItems: r.Intn(3) == 0}
+			g := &DGen{SUT: sut, W: w, B: b, N: 30 + r.Intn(40), MaxItem: 2 + r.Intn(b), NoReset: r.Intn(3) > 0, BigItems: r.Intn(3) == 0, Hostile: 8}
 			ops := GenDOps(r, g)
 			if sut == "buffer" {
 				// fill up and read before block operations
@@ -262,10 +296,14 @@ func init() {
 		owned: owned("spin"),
 		kinds: func(tier string) []core.Segment {
 			m := tierScale(tier, 50)
-			return []core.Segment{{Kind: "corpus:decoder", N: 1000}, {Kind: "decoder", N: 16000 * m}, {Kind: "faulty:decoder", N: 6000 * m}, {Kind: "buffer", N: 6000 * m}}
+			return []core.Segment{{Kind: "corpus:decoder", N: 1000}, {Kind: "decoder", N: 16000 * m}, {Kind: "faulty:decoder", N: 6000 * m}, {Kind: "buffer", N: 6000 * m},
+				{Kind: "big:decoder", N: 84 * m, Chunk: 3}}
 		},
 		genC: func(r *rand.Rand, kind string, idx int64, tier string) DCase {
 			class, sut := splitKind(kind)
+			if class == "big" {
+				return bigDCase(r, sut, idx, 10)
+			}
 			b := 1 + r.Intn(40)
 			if r.Intn(8) == 0 {
 				b = 1 + r.Intn(400)
@@ -310,14 +348,39 @@ func init() {
 	})
 }
 
+// bigDCase generates a short history on a big geometry: items sized around
+// WindowSize, BufferSize-WindowSize and BufferSize, long overlapping matches
+// with small odd offsets, flushes with megabytes pending.
+func bigDCase(r *rand.Rand, sut string, idx int64, hostile int) DCase {
+	w, b := bigGeometry(r, idx)
+	ew, eb := effGeometry(w, b)
+	g := &DGen{SUT: sut, W: ew, B: eb, N: 8 + r.Intn(10), MaxItem: 2 + r.Intn(2*(eb-ew)), BigItems: true, Hostile: hostile, NoReset: r.Intn(2) == 0}
+	if eb > 1<<21 {
+		// keep the amount of data per case bounded
+		g.N = 5 + r.Intn(5)
+		g.MaxItem = 1 << 20
+		g.BigItems = r.Intn(2) == 0
+		if !g.BigItems {
+			g.MaxItem = 3 << 19
+		}
+	}
+	ops := GenDOps(r, g)
+	if sut == "decoder" {
+		fitLiterals(ops, eb-ew)
+	}
+	return DCase{WS: w, BS: b, SUT: sut, Ops: ops}
+}
+
 // ---------------------------------------------------------------- C18
 
 // C18Case is a fault-free valid stream; Run enumerates the fault placements.
 type c18prop struct{ base }
 
+func (p *c18prop) CaseCPU(tier string) int { return 120 }
+
 func (p *c18prop) Plan(tier string, seed int64) []core.Segment {
 	m := tierScale(tier, 30)
-	return []core.Segment{{Kind: "corpus:enum", N: 200}, {Kind: "enum", N: 1800 * m}, {Kind: "random", N: 3000 * m}}
+	return []core.Segment{{Kind: "corpus:enum", N: 200}, {Kind: "enum", N: 1800 * m}, {Kind: "random", N: 3000 * m}, {Kind: "big", N: 60 * m, Chunk: 4}}
 }
 
 func (p *c18prop) Gen(kind string, idx int64, seed int64, tier string) core.Case {
@@ -327,6 +390,15 @@ func (p *c18prop) Gen(kind string, idx int64, seed int64, tier string) core.Case
 		s = 0
 	}
 	r := core.Rand(s, p.id, kind, idx)
+	if kind == "big" {
+		dc := bigDCase(r, "decoder", idx, 0)
+		for i := range dc.Ops {
+			if dc.Ops[i].K == "reset" || dc.Ops[i].K == "reinit" {
+				dc.Ops[i] = DOp{K: "flush"}
+			}
+		}
+		return core.MkCase(p.id, kind, idx, seed, tier, dc)
+	}
 	w, b := geometry(r, idx)
 	if b > 24 {
 		b = 2 + r.Intn(23)
@@ -336,7 +408,7 @@ func (p *c18prop) Gen(kind string, idx int64, seed int64, tier string) core.Case
 	if k == "random" {
 		n = 10 + r.Intn(30)
 	}
-	g := &DGen{SUT: "decoder", W: w, B: b, N: n, MaxItem: 2 + r.Intn(b), OnlyValid: true, NoReset: true, BigItems: r.Intn(2) == 0}
+	g := &DGen{SUT: "decoder", W: w, B: b, N: n, MaxItem: 2 + r.Intn(b), OnlyValid: true, NoReset: r.Intn(3) > 0, BigItems: r.Intn(2) == 0}
 	ops := GenDOps(r, g)
 	fitLiterals(ops, b-w)
 	// writes larger than a flushed buffer are allowed: Decoder.Write chunks
@@ -382,6 +454,24 @@ func (p *c18prop) Run(c *core.Case, st *core.Stats) []core.Violation {
 	}
 	// fault-free run: counts the writer calls
 	n := countWriterCalls(dc)
+	if k == "big" {
+		// big geometries: a sample of single fault placements per stream
+		st.Inc("fault_free_runs")
+		r := core.Rand(c.Seed, "C18", "bigfaults", c.Idx)
+		for t := 0; t < 12 && n > 0; t++ {
+			fault := map[int]WStep{r.Intn(n): {Acc: r.Intn(5), Fail: true}}
+			if r.Intn(3) == 0 {
+				fault[r.Intn(n+1)] = WStep{Acc: r.Intn(5), Fail: true}
+			}
+			st.Inc("fault_plans")
+			st.Inc("big_geometry_fault_plans")
+			if f, _ := run(fault); f != nil {
+				return report(f, fault)
+			}
+		}
+		st.NonTrivial(c)
+		return nil
+	}
 	st.Inc("fault_free_runs")
 	if n == 0 {
 		return nil
